@@ -50,7 +50,7 @@ def spec_check(case, impl):
 def run(rep):
     rep.cov["rule"] = (
         "proof: theorems for every value type, every (lawless) eqb and every history; tie: all histories up to "
-        "length 5 (quick) / 7 (thorough) over {append,fetch_or_append} x 4 values under 7-8 equality tables (incl. the "
+        "length 5 (quick) / 6 (thorough) over {append,fetch_or_append} x 4 values under 7-8 equality tables (incl. the "
         "f64 table on real f64 with NaN/-0.0) + random long histories, implementation vs extracted model; "
         "non-trivial = history with at least one fetch_or_append hit or two appends"
     )
